@@ -7,7 +7,7 @@ from ..core import AnalysisError, u, walk_local, ancestors, FuncNode
 from ..lib import (construct, std_facts, calls_of_node, copy_kind, at_least,
                    returns_of)
 from ..mayraise import MayRaise
-from .common import (ENTER, EXIT, nodes_calling, scope_entry, instance_state, scope_who,
+from .common import (lazy_init_stmt, ENTER, EXIT, nodes_calling, scope_entry, instance_state, scope_who,
                      scope_copy_out, stack_discipline)
 
 
@@ -111,6 +111,7 @@ def run(ctx):
   # every method touching self._active_scopes initialises per thread first
   init = c.methods.get('_maybe_init') or c.methods.get('__init__')
   attr_users = 0
+  inline_inits = []
   for name, m in sorted(c.methods.items()):
     uses = [n for n in walk_local(m.node) if isinstance(n, ast.Attribute)
             and isinstance(n.value, ast.Name) and n.value.id == 'self' and n.attr.startswith('_active')]
@@ -125,12 +126,17 @@ def run(ctx):
       first = m.node.body[1] if len(m.node.body) > 1 else None
     ok = first is not None and isinstance(first, ast.Expr) and isinstance(first.value, ast.Call) and \
         prog.resolve_call(m, first.value) == (init.qual if init else None)
+    if not ok and first is not None and lazy_init_stmt(first) is not None:
+      ok = True       # the initialisation itself, written in line
+      inline_inits.append(lazy_init_stmt(first))
     ctx.check(ok, 'C09.thread', ccon, '%s: per-thread lazy initialisation runs first' % name,
               '%s touches the scope stack before the per-thread initialisation: a new thread has no stack' % name,
               m.loc(), instance=name)
   ctx.expect_at_least('_ScopeManager methods using the stack', attr_users, 4)
-  if init is not None:
-    fresh = [n.value for n in walk_local(init.node) if isinstance(n, ast.Assign)
+  if init is not None or inline_inits:
+    fresh = list(inline_inits)
+    init = init or next(m_ for _n, m_ in sorted(c.methods.items()))
+    fresh += [n.value for n in walk_local(init.node) if isinstance(n, ast.Assign)
              and any(isinstance(t, ast.Attribute) and t.attr.startswith('_active') for t in n.targets)]
     # equivalent spellings on the instance dict: vars(self).setdefault('_active_scopes', <fresh>) / self.__dict__.setdefault(...)
     fresh += [c.args[1] for c in walk_local(init.node) if isinstance(c, ast.Call) and isinstance(c.func, ast.Attribute) and c.func.attr == 'setdefault'
